@@ -69,7 +69,7 @@ var Props = []PropInfo{
 		NotDecided:  "SQL semantics of the generated joins for concrete table contents; tie-breaking among equal timestamps.",
 		Assumptions: trust("goqu v9 semantics: Limit(0) clears the limit, Gte/Lte are inclusive comparisons", "SQLite compares identifiers ASCII case-insensitively")},
 	{ID: "C07",
-		Explanation: "Structural necessary conditions of router delivery: nothing reachable from Publish blocks (no bare send/receive, no blocking select, no exclusive lock, no handler call) (PUB-NB) and nothing reachable from it writes shared memory (PUB-RO); the walk from Publish to the per-subscriber send leaves no loop early, so every registered subscriber is offered the event (PUB-ALL); Subscribe/Publish/Unsubscribe are called synchronously before the EOSE/OK is returned, with the right ids (SUB-SYNC); UnsubscribeAll of the session id is deferred before the loop (UNSUB-ALL); every reply constructor is labelled with the id of the request bound in its clause (LABEL); the registry is keyed connection-id then subscription-id (SUB-KEY); the per-connection queue has the configured capacity and one receiver (BUF).",
+		Explanation: "Structural necessary conditions of router delivery: nothing reachable from Publish blocks (no bare send/receive, no blocking select, no exclusive lock, no handler call) (PUB-NB) and nothing reachable from it writes shared memory (PUB-RO); the walk from Publish to the per-subscriber send leaves no loop early, so every registered subscriber is offered the event (PUB-ALL); Subscribe/Publish/Unsubscribe are called synchronously before the EOSE/OK is returned, with the right ids (SUB-SYNC); UnsubscribeAll of the session id is deferred before the loop (UNSUB-ALL); every reply constructor is labelled with the id of the request bound in its clause (LABEL); the registry is keyed connection-id then subscription-id, and Unsubscribe drops the connection's entry at most after removing the named subscription and finding the table empty (SUB-KEY); the per-connection queue has the configured capacity and one receiver (BUF).",
 		NotDecided:  "exactly-once / real-time-order delivery over interleavings; drop counts under back-pressure.",
 		Assumptions: trust("sync.RWMutex semantics")},
 	{ID: "C08",
@@ -81,8 +81,8 @@ var Props = []PropInfo{
 		NotDecided:  "accept-iff-all-accept and one-reply-per-request under pipelining and repeated ids.",
 		Assumptions: trust()},
 	{ID: "C10",
-		Explanation: "Structural necessary conditions of the wire codec: for each of the 12 message types the label written = label accepted = *MsgLabel() = the ParseClientMsg clause instantiating it, and the arity written = arity accepted (COD-TAB); the filter decoder's key dispatch rejects unknown members and writes the keys it accepts; Event struct tags = keys looked up = 7 = field-count test; no panic instruction, unchecked type assertion, nil-map write or division is reachable from the decoders (DEC-PANIC-CG); index/slice expressions in the decoders are in range by dominating length facts (DEC-BOUNDS).",
-		NotDecided:  "round-trip equality for all values; 'completely filled'.",
+		Explanation: "Structural necessary conditions of the wire codec: for each of the 12 message types the label written = label accepted = *MsgLabel() = the ParseClientMsg clause instantiating it, and the arity written = arity accepted (COD-TAB); the filter decoder's key dispatch rejects unknown members and writes the keys it accepts; Event struct tags = keys looked up = 7 = field-count test; no panic instruction, unchecked type assertion, nil-map write or division is reachable from the decoders (DEC-PANIC-CG); index/slice expressions in the decoders are in range by dominating length facts (DEC-BOUNDS); no encoding/json destination in the decoders is a (container of) message pointer(s) that JSON null would leave nil, every pointer stored into a decoded value is a fresh allocation, and each decoder of a type with a pointer field stores it (DEC-FILLED); decoded slices are not nil-started accumulators (DEC-NILACC).",
+		NotDecided:  "round-trip equality for all values; filled-ness of non-pointer fields.",
 		Assumptions: trust("encoding/json never panics on arbitrary input")},
 	{ID: "C11",
 		Explanation: "Structural necessary conditions of admission: the integer/rune domains of the field validators equal the statement's (kind in [0,65535], lower-case hex charset, lengths 64/64/128, since/until/limit >= 0, tag-key letter set) over all integers (VAL-DOM); each Valid() result depends on the validator of every field (VAL-SLICE); ValidClientMsg and ParseClientMsg have one clause per client message type calling that type's own method (VAL-EXH); the dispatch pattern admits insignificant JSON whitespace before and after '[' (DISPATCH-WS); an address is split so that d may contain ':' (NADDR-SPLIT).",
@@ -105,7 +105,7 @@ var Props = []PropInfo{
 		NotDecided:  "the sequential specification itself (C03/C04); absence of races in third-party code.",
 		Assumptions: trust("sync.Mutex/RWMutex semantics")},
 	{ID: "C16",
-		Explanation: "Structural necessary conditions of storage-handler replies: per client-message clause of each base the multiset and order of reply constructors on every path equals the statement's table, labelled with the request's id; cache OK is accepting on Add's true edge and a duplicate-prefixed rejection otherwise (REPLY-TAB, LABEL); in SimpleHandler the next inbound receive is reachable from the reply drain only through its closed edge (LOOP-ORDER); Dump queries with an empty filter and Restore inserts only through Add (DUMP-ALL); reply channel capacities bound the sends (CHAN-DISC/DR2).",
+		Explanation: "Structural necessary conditions of storage-handler replies: per client-message clause of each base the multiset and order of reply constructors on every path equals the statement's table, labelled with the request's id; cache OK is accepting on Add's true edge and a duplicate-prefixed rejection otherwise (REPLY-TAB, LABEL); in SimpleHandler the next inbound receive is reachable from the reply drain only through its closed edge (LOOP-ORDER); Dump queries with an empty filter and Restore inserts only through Add (DUMP-ALL); reply channel capacities bound the sends (CHAN-DISC/DR2); the store query that produces a REQ's events tests the presence of a list condition by nil-ness, never by length (FLT-NIL).",
 		NotDecided:  "dump/restore answer equality for all cache states.",
 		Assumptions: trust()},
 	{ID: "C17",
